@@ -41,11 +41,11 @@ type Solver struct {
 
 	// fallback: a second process used one-shot ((reset) + cone of influence +
 	// check-sat) when the incremental core does not answer within FastMs.
-	FastMs    int
-	fb        *exec.Cmd
-	fbIn      io.WriteCloser
-	fbOut     *bufio.Reader
-	NFallback int
+	FastMs       int
+	fb           *exec.Cmd
+	fbIn         io.WriteCloser
+	fbOut        *bufio.Reader
+	NFallback    int
 	FallbackKind string
 }
 
